@@ -49,6 +49,11 @@ def monitor(c, o):
         what = f"append #{slowest[0]['op']} did not return" if slowest else f"slowest append took {s.get('maxms')} ms"
         return ("c20:slow", f"{what} within the bound of {s.get('bound')} ms on 3 consecutive attempts of this schedule")
     if any(a["res"] == "PANIC" for a in tr.odd): return ("c20:panic", "an append panicked instead of returning")
+    for a in tr.apps:
+        if "no reply from the writer thread" in a["res"]:
+            # wait_for ends with RecvError only when the watch channel was closed with a final value below the target:
+            # the wake-up that should cover the append never came (the model's rollover publishes before it abandons a channel)
+            return ("c20:no-wakeup", f"append #{a['op']} ended with NoThreadReply: its segment's watch channel was closed without ever publishing an offset covering it")
     # an acknowledgement follows a publication (sync) of its segment that covers its target offset
     pubs = {}
     for i in tr.items:
